@@ -13,6 +13,10 @@ REF_VARIANTS = {1: ["plain", "unsorted", "padded", "extra"], 2: ["plain", "extra
                 3: ["plain", "trailing-pad", "extra"]}
 
 
+UTF8_SHA256_CONTENT = "vf-utf8-343125952"  # sha256() of this text is a valid UTF-8 byte string (found by search)
+UTF8_SHA1_CONTENT = "vf-utf8-100126"      # sha1() of this text is a valid UTF-8 byte string (checked at run time)
+
+
 def gen_case(rng, tier, damaged, single_ok=True):
     exp = gen.pick_pl_exp(rng, tier, hi=17 if tier == "quick" else 19)
     pl = 2 ** exp
@@ -291,6 +295,26 @@ class C05:
     def gen(rng, tier, i):
         case = gen_case(rng, tier, damaged=False)
         case["form"] = "both"
+        c = rng.random()
+        if c < 0.03:
+            # adversarial: the single SHA-1 piece hash is valid UTF-8 (a lenient decoder returns text, not bytes)
+            raw = "raw:" + UTF8_SHA1_CONTENT
+            case["tree"] = {"name": "u.bin", "single": True, "files": [["u.bin", len(raw) - 4, raw]], "dirs": [],
+                            "layout": "utf8-hash"}
+            case["version"] = 1
+            case["encoder"] = rng.choice([["tool", "TorrentFile"], ["ref", "plain"]])
+            if rng.random() < 0.5:
+                # same for the SHA-256 pieces root of a one-block file (v2 / hybrid), alone or inside a directory
+                raw = "raw:" + UTF8_SHA256_CONTENT
+                if rng.random() < 0.5:
+                    case["tree"]["files"] = [["u.bin", len(raw) - 4, raw]]
+                else:
+                    case["tree"] = {"name": "ud", "single": False, "dirs": [], "layout": "utf8-hash",
+                                    "files": [["a", 20000, 5], ["u.bin", len(raw) - 4, raw], ["z", 7, 6]]}
+                case["version"] = rng.choice([2, 3])
+                case["encoder"] = rng.choice([["tool", TOOL_ROUTES[case["version"]][0]], ["ref", "plain"]])
+        elif c < 0.08:
+            case["same_name_parent"] = True     # .../<name>/<name>/...: the parent is called like the payload
         return case
 
     @staticmethod
@@ -311,11 +335,29 @@ class C05:
                 return {"inconclusive": "reference does not verify its own/the tool's metafile",
                         "traceback": str(case)}
             counters["judged_" + form] = 1
+            model = None
+            if case.get("same_name_parent") and form == "parent":
+                # defect model of the known finding: the parent (named like the payload) is taken for the payload
+                # root, so every listed file is looked up one level too high
+                if case["tree"]["single"]:
+                    model = "IsADirectoryError"
+                else:
+                    wrong_root = os.path.dirname(os.path.join(scratch, form, "in", case["tree"]["name"], case["tree"]["name"]))
+                    fr = rt.recheck(open(os.path.join(scratch, form, "meta", "m.torrent"), "rb").read(), wrong_root)["fraction"]
+                    model = float(fr) if fr is not None else None
+                    # a listed relative path that is a directory one level too high cannot be opened as a file
+                    if any(os.path.isdir(os.path.join(wrong_root, f[0])) for f in case["tree"]["files"]):
+                        model = "IsADirectoryError"
             if obs["tool_exc"] is not None:
-                viol.append(oracles.V("recheck-raised-on-intact", form=form, **obs["tool_exc"]))
+                viol.append(oracles.V("recheck-raised-on-intact", form=form, layout=case["tree"]["layout"],
+                                      same_name_parent=bool(case.get("same_name_parent")),
+                                      matches_same_name_parent_model=(model == obs["tool_exc"]["exc"]), **obs["tool_exc"]))
             elif obs["tool_result"] != 100:
                 viol.append(oracles.V("intact-not-100", form=form, reported=obs["tool_result"],
-                                      flags=_feature_flags(case), encoder=case["encoder"], version=case["version"]))
+                                      flags=_feature_flags(case), encoder=case["encoder"], version=case["version"],
+                                      layout=case["tree"]["layout"], same_name_parent=bool(case.get("same_name_parent")),
+                                      matches_same_name_parent_model=(isinstance(model, float) and
+                                                                      abs(model - obs["tool_result"]) < 1e-9)))
             obs_all[form] = obs.get("tool_result")
         if case["encoder"][0] == "ref":
             counters[f"ref_encoded_v{case['version']}"] = 1
@@ -323,16 +365,27 @@ class C05:
             counters["tool_encoded"] = 1
         if any(f[1] == 0 for f in case["tree"]["files"]):
             counters["cases_with_empty"] = 1
+        if case["tree"]["layout"] == "utf8-hash":
+            import hashlib
+            hashlib.sha1(UTF8_SHA1_CONTENT.encode()).digest().decode("utf-8")     # raises if the constant is wrong
+            hashlib.sha256(UTF8_SHA256_CONTENT.encode()).digest().decode("utf-8")
+            counters["utf8_valid_hash_cases"] = 1
+        if case.get("same_name_parent"):
+            counters["same_name_parent_cases"] = 1
         pl = 2 ** case["pl_exp"]
         total = sum(f[1] for f in case["tree"]["files"])
         res = _common_result(case, first, viol, counters, {"results_by_form": obs_all})
         res["evaluations"] = 2
         res["nontrivial"] = len(case["tree"]["files"]) > 1 or total % pl != 0
-        res["sig"] = [case["encoder"], case["version"], gen.tree_sig(case["tree"], pl), case["pl_exp"], case["via"]]
+        res["sig"] = [case["encoder"], case["version"], gen.tree_sig(case["tree"], pl), case["pl_exp"], case["via"],
+                      bool(case.get("same_name_parent"))]
         return res
 
     @staticmethod
     def classify(case, v):
+        d = v.get("detail", {})
+        if case.get("same_name_parent") and d.get("form") == "parent" and d.get("matches_same_name_parent_model") is True:
+            return "recheck-parent-named-like-payload"
         return None
 
 
